@@ -7,12 +7,21 @@ from harness.impl import tok, list_s
 
 # name universes: ints, strs (with look-alikes of library-generated names), tuples, floats, mixtures
 POOLS = {
-    'int': [1, 2, 3, 4, 5, 6, 12, 13, 23, 123],
-    'str': ['a', 'b', 'c', 'd', 'e', 'ab', 'bc', 'abc', '0d0', '1d0', '1d1', '2d0', '0d1', '1d2'],
+    'int': [1, 2, 3, 4, 5, 6, 12, 13, 23, 123, 0, -1],
+    'str': ['a', 'b', 'c', 'd', 'e', 'ab', 'bc', 'abc', '0d0', '1d0', '1d1', '2d0', '0d1', '1d2', ''],
     'tup': [(1,), (1, 2), ('a', 1), (2, 'b'), ((1, 2), 3), ()],
     'flt': [0.5, 1.5, -0.25, 2.75],
 }
-POOLS['mix'] = POOLS['int'][:5] + POOLS['str'][:4] + POOLS['str'][8:11] + POOLS['tup'][:3] + POOLS['flt'][:2]
+POOLS['int5'] = [1, 2, 3, 4, 5]
+POOLS['str5'] = ['a', 'b', 'c', 'd', 'e']
+POOLS['strplain'] = ['a', 'b', 'c', 'd', 'e', 'ab', 'bc', 'abc', 'x', '']
+POOLS['mixplain'] = POOLS['int'][:5] + [0] + POOLS['strplain'][:4] + [''] + POOLS['tup'][:3] + [()] + POOLS['flt'][:2]
+POOLS['mix'] = POOLS['int'][:5] + [0] + POOLS['str'][:4] + POOLS['str'][8:11] + [''] + POOLS['tup'][:3] + [()] + POOLS['flt'][:2]
+
+import re as _re
+_AUTO = _re.compile(r'^\d+d\d+$')
+def _is_auto(n):
+    return type(n) is str and _AUTO.match(n) is not None
 
 def optname_tok(n):
     return '-' if n is None else tok(n)
@@ -32,19 +41,33 @@ class Gen:
     """Generates a script step by step against a live implementation world, so that most calls
     are valid; `bad` is the probability of drawing from the malformed stream."""
 
-    def __init__(self, rnd, pool='mix', bad=0.2, ops=None, snap=True, var='a'):
+    def __init__(self, rnd, pool='mix', bad=0.2, ops=None, snap=True, var='a', after=(), before=(), twin=None):
         self.rnd = rnd; self.pool = POOLS[pool]; self.bad = bad; self.snap = snap
+        self.after = list(after); self.before = list(before); self.twin = twin
         self.w = impl.ImplWorld()
         self.lines = []
         self.var = var
         self.ops = ops or dict(point=3, faces=4, basis=4, delete=2, restrict=1, subdiv=1, relabel1=1,
-                               relabel=1, addfrom=1, delb=0.5, dels=0.5, ensure=0.3)
+                               relabel=1, addfrom=1, delb=0.5, dels=0.5, ensure=0.3, dupfaces=0.7, dupbasis=0.5)
         self.stats = {}
-        self.emit('new ' + var)
+        self.emit('new ' + var, snap=False)
+        if twin:
+            self.emit('new ' + twin, snap=False)
 
     def emit(self, line, snap=None):
-        self.lines.append(line)
-        a, o = self.w.exec(line)
+        main = (snap is None)
+        if main:
+            self.lines.append('echo --')        # unit boundary (for the shrinker)
+            for b in self.before:
+                b = b.replace('{line}', line)
+                self.lines.append(b); self.w.exec(b)
+        if main and self.twin and not getattr(self, 'no_twin', False):
+            t = line.split()
+            xl = ' '.join(['both', t[1], self.twin, t[0]] + t[2:])
+        else:
+            xl = line
+        self.lines.append(xl)
+        a, o = self.w.exec(xl)
         kw = line.split()[0]
         self.stats[kw] = self.stats.get(kw, 0) + 1
         if o and o[0].startswith('err'):
@@ -53,6 +76,10 @@ class Gen:
             v = line.split()[1] if len(line.split()) > 1 else self.var
             if v in self.w.vars and isinstance(self.w.vars[v], impl.SimplicialComplex):
                 self.lines.append('snap ' + v)
+        if main:
+            for x in self.after:
+                x = x.replace('{seed}', str(self.rnd.randrange(10 ** 6)))
+                self.lines.append(x); self.w.exec(x)
         return o
 
     def c(self):
@@ -64,80 +91,149 @@ class Gen:
     def some_simplex(self, k=None):
         c = self.c()
         ss = c.simplices() if k is None else c.simplicesOfOrder(k)
+        if self.twin:
+            # scripts with a twin never refer to a library-generated name
+            ss = [s for s in ss if not _is_auto(s)]
         return self.rnd.choice(ss) if ss else self.rnd.choice(self.pool)
 
     def step(self):
+        from harness import oracles
+        for attempt in range(8):
+            self.no_twin = False
+            line = self.draw()
+            if line is None:
+                continue
+            try:
+                cls = oracles.classify(self.c(), line, self.w)
+            except Exception:
+                cls = 'other'
+            if cls == 'ooc':
+                self.stats['redrawn_out_of_contract'] = self.stats.get('redrawn_out_of_contract', 0) + 1
+                continue
+            self.stats['class_' + cls] = self.stats.get('class_' + cls, 0) + 1
+            return self.emit(line)
+        return None
+
+    def draw(self):
         rnd = self.rnd; c = self.c(); v = self.var
         op = rnd.choices(list(self.ops.keys()), list(self.ops.values()))[0]
         bad = rnd.random() < self.bad
         pts = c.simplicesOfOrder(0)
+        if self.twin:
+            pts = [x for x in pts if not _is_auto(x)]
         if op == 'point':
             n = rnd.choice([None, None] + self.pool) if not bad else self.some_simplex()
-            return self.emit('add %s [ ] %s %s' % (v, optname_tok(n), attr_tok(rnd, self.w)))
+            return 'add %s [ ] %s %s' % (v, optname_tok(n), attr_tok(rnd, self.w))
         if op == 'faces':
             if not bad and len(pts) >= 2:
                 k = rnd.randint(1, min(3, len(pts) - 1))
                 V = rnd.sample(pts, k + 1)
                 fs = [c.simplexWithBasis([x for x in V if x is not y and x != y]) for y in V]
-                if all(f is not None for f in fs):
+                if all(f is not None for f in fs) and not (self.twin and any(_is_auto(f) for f in fs)):
                     rnd.shuffle(fs)
-                    n = rnd.choice([None, None, None] + self.pool)
-                    return self.emit('add %s %s %s %s' % (v, list_s(fs), optname_tok(n), attr_tok(rnd, self.w)))
+                    n = rnd.choice([None, None, None] + self.pool + [x for x in self.pool if not x])
+                    return 'add %s %s %s %s' % (v, list_s(fs), optname_tok(n), attr_tok(rnd, self.w))
                 # facets missing: fall through to a basis add to build them
                 n = rnd.choice([None, None, None] + self.pool)
-                return self.emit('addb %s %s %s %s' % (v, list_s(V), optname_tok(n), attr_tok(rnd, self.w)))
+                return 'addb %s %s %s %s' % (v, list_s(V), optname_tok(n), attr_tok(rnd, self.w))
             # malformed: arbitrary existing/unknown simplices as faces
             m = rnd.randint(1, 4)
             fs = [self.some_simplex() if rnd.random() < 0.8 else rnd.choice(self.pool) for _ in range(m)]
             n = rnd.choice([None, None] + self.pool)
-            return self.emit('add %s %s %s %s' % (v, list_s(fs), optname_tok(n), attr_tok(rnd, self.w)))
+            return 'add %s %s %s %s' % (v, list_s(fs), optname_tok(n), attr_tok(rnd, self.w))
         if op == 'basis':
             m = rnd.randint(2, 4)
             if not bad:
                 cand = list(pts) + [x for x in self.pool if x not in c]
                 cand = list(dict.fromkeys(cand))
                 if len(cand) < m:
-                    return self.step()
+                    return None
                 bs = rnd.sample(cand, m)
                 n = rnd.choice([None, None, None] + [x for x in self.pool if x not in c and x not in bs][:3])
             else:
                 bs = [self.some_simplex() if rnd.random() < 0.7 else rnd.choice(self.pool) for _ in range(m)]
                 n = rnd.choice([None] + self.pool)
-            return self.emit('addb %s %s %s %s' % (v, list_s(bs), optname_tok(n), attr_tok(rnd, self.w)))
+            return 'addb %s %s %s %s' % (v, list_s(bs), optname_tok(n), attr_tok(rnd, self.w))
+        if op == 'dupfaces':
+            hi = [s for s in c.simplices() if c.orderOf(s) >= 1]
+            if self.twin:
+                hi = [s for s in hi if not any(_is_auto(f) for f in c.faces(s))]
+            if not hi:
+                return None
+            s = rnd.choice(hi); fs = list(c.faces(s)); rnd.shuffle(fs)
+            n = rnd.choice([None] + [x for x in self.pool if x not in c][:4])
+            return 'add %s %s %s %s' % (v, list_s(fs), optname_tok(n), attr_tok(rnd, self.w))
+        if op == 'dupbasis':
+            hi = [s for s in c.simplices() if c.orderOf(s) >= 1]
+            if self.twin:
+                hi = [s for s in hi if not any(_is_auto(f) for f in c.basisOf(s))]
+            if not hi:
+                return None
+            s = rnd.choice(hi); bs = list(c.basisOf(s)); rnd.shuffle(bs)
+            n = rnd.choice([None] + [x for x in self.pool if x not in c][:4])
+            return 'addb %s %s %s %s' % (v, list_s(bs), optname_tok(n), attr_tok(rnd, self.w))
+        if op == 'copyinto':
+            # a target complex sharing (or not) a name with us, possibly at another order
+            tgt = 'y'
+            self.emit('new ' + tgt, snap=False)
+            ss = c.simplices()
+            fresh = [x for x in self.pool if x not in c]
+            names = []
+            for _ in range(rnd.randint(1, 3)):
+                if ss and rnd.random() < 0.35:
+                    names.append(rnd.choice(ss))
+                elif fresh:
+                    names.append(fresh.pop(rnd.randrange(len(fresh))))
+            names = list(dict.fromkeys(names))
+            if len(names) >= 3 and rnd.random() < 0.7:
+                # the last name becomes an edge of the target
+                self.emit('add %s [ ] %s -' % (tgt, tok(names[0])), snap=False)
+                self.emit('add %s [ ] %s -' % (tgt, tok(names[1])), snap=False)
+                self.emit('add %s %s %s -' % (tgt, list_s(names[:2]), tok(names[2])), snap=False)
+            else:
+                for x in names:
+                    self.emit('add %s [ ] %s -' % (tgt, tok(x)), snap=False)
+            self.no_twin = True
+            return 'copyinto %s %s' % (v, tgt)
         if op == 'ensure':
             bs = [rnd.choice(self.pool) if rnd.random() < 0.5 else self.some_simplex() for _ in range(rnd.randint(1, 3))]
-            return self.emit('ensure %s %s %s' % (v, list_s(bs), attr_tok(rnd, self.w)))
+            return 'ensure %s %s %s' % (v, list_s(bs), attr_tok(rnd, self.w))
         if op == 'delete':
             s = self.some_simplex() if not bad else rnd.choice(self.pool)
-            return self.emit('del %s %s' % (v, tok(s)))
+            return 'del %s %s' % (v, tok(s))
         if op == 'delb':
-            s = self.some_simplex()
+            cand = c.simplices()
+            if self.twin:
+                cand = [x for x in cand if not any(_is_auto(p) for p in c.basisOf(x))]
+            s = self.rnd.choice(cand) if cand else self.some_simplex()
             bs = list(c.basisOf(s)) if s in c and not bad else [rnd.choice(self.pool) for _ in range(2)]
             rnd.shuffle(bs)
-            return self.emit('delb %s %s' % (v, list_s(bs)))
+            return 'delb %s %s' % (v, list_s(bs))
         if op == 'dels':
             ss = [self.some_simplex() for _ in range(rnd.randint(0, 3))]
-            return self.emit('dels %s %s' % (v, list_s(ss)))
+            return 'dels %s %s' % (v, list_s(ss))
         if op == 'restrict':
             if not bad and pts:
                 bs = rnd.sample(pts, rnd.randint(0, len(pts)))
             else:
                 bs = [self.some_simplex() if rnd.random() < 0.6 else rnd.choice(self.pool) for _ in range(rnd.randint(1, 3))]
-            return self.emit('restrict %s %s' % (v, list_s(bs)))
+            return 'restrict %s %s' % (v, list_s(bs))
         if op == 'subdiv':
-            hi = [s for s in c.simplices() if c.orderOf(s) >= 1]
+            hi = [s for s in c.simplices() if c.orderOf(s) >= 1 and not (self.twin and _is_auto(s))]
             s = rnd.choice(hi) if hi and not bad else (self.some_simplex() if rnd.random() < 0.5 else rnd.choice(self.pool))
-            return self.emit('subdiv %s %s ?' % (v, tok(s)))
+            return 'subdiv %s %s ?' % (v, tok(s))
         if op == 'relabel1':
             s = self.some_simplex() if rnd.random() < 0.9 else rnd.choice(self.pool)
             q = rnd.choice([x for x in self.pool if x not in c] or self.pool) if not bad else self.some_simplex()
-            return self.emit('relabel1 %s %s %s' % (v, tok(s), tok(q)))
+            return 'relabel1 %s %s %s' % (v, tok(s), tok(q))
         if op == 'relabel':
             ss = c.simplices()
             r = rnd.random()
             if r < 0.6:
                 free = [x for x in self.pool if x not in c]
                 rnd.shuffle(free)
+                if self.twin:
+                    ss = [x for x in ss if not _is_auto(x)]
                 chosen = rnd.sample(ss, min(len(ss), rnd.randint(0, 3)))
                 m = []
                 for s in chosen:
@@ -145,12 +241,14 @@ class Gen:
                         m += [s, rnd.choice(ss)]
                     elif free:
                         m += [s, free.pop()]
-                return self.emit('relabel %s map %s' % (v, list_s(m)))
+                return 'relabel %s map %s' % (v, list_s(m))
+            if self.twin:
+                return 'relabel %s count %d' % (v, rnd.choice([100, 1000]))
             if r < 0.8:
-                return self.emit('relabel %s tup %d' % (v, rnd.randint(0, 2)))
+                return 'relabel %s tup %d' % (v, rnd.randint(0, 2))
             if r < 0.9:
-                return self.emit('relabel %s count %d' % (v, rnd.choice([100, 1000, 1])))
-            return self.emit('relabel %s prefix s%s' % (v, rnd.choice(['p', 'x_'])))
+                return 'relabel %s count %d' % (v, rnd.choice([100, 1000, 1]))
+            return 'relabel %s prefix s%s' % (v, rnd.choice(['p', 'x_']))
         if op == 'addfrom':
             # build a small source complex in a second variable, then bulk add
             src = 'z'
@@ -160,7 +258,13 @@ class Gen:
             for x in names:
                 self.emit('add %s [ ] %s %s' % (src, tok(x), attr_tok(rnd, self.w)), snap=False)
             if n >= 2 and rnd.random() < 0.8:
-                self.emit('addb %s %s - %s' % (src, list_s(names), attr_tok(rnd, self.w)), snap=False)
+                if self.twin:
+                    # no library-generated names in a twinned history: name the simplex explicitly
+                    free = [x for x in self.pool if x not in c and x not in names]
+                    if free:
+                        self.emit('add %s %s %s %s' % (src, list_s(names[:2]), tok(rnd.choice(free)), attr_tok(rnd, self.w)), snap=False)
+                else:
+                    self.emit('addb %s %s - %s' % (src, list_s(names), attr_tok(rnd, self.w)), snap=False)
             r = rnd.random()
             if r < 0.4:
                 rn = '-'
@@ -175,7 +279,7 @@ class Gen:
                 rn = 'map ' + list_s(m)
             else:
                 rn = 'count %d' % rnd.choice([500, 900])
-            return self.emit('addfrom %s %s %s' % (v, src, rn))
+            return 'addfrom %s %s %s' % (v, src, rn)
         raise ValueError(op)
 
 
